@@ -447,6 +447,10 @@ impl SubRule {
 
     fn context_match_option(&self, states: &[Item], state_index: &mut usize, word: &Word, pos: &mut SegPos, forwards: bool, opt_states: &[Item], match_min: usize, match_max: usize) -> Result<bool, RuleRuntimeError> {
         // should work like regex (...){min, max}? 
+        // when matching a before-context the word is walked right to left, so the optional's own elements must be too (as for structures)
+        let mut opt_states = opt_states.to_vec();
+        if !forwards { opt_states.reverse(); }
+        let opt_states = &opt_states[..];
         let match_max = if match_max == 0 { None } else { Some(match_max) };
         let back_pos = *pos;
         let back_alphas = self.alphas.borrow().clone();
